@@ -1010,3 +1010,280 @@ def simplify_under(expr: ast.AST, known: set[Any]) -> ast.AST:
             return node
 
     return S().visit(copy.deepcopy(expr))
+
+
+# ------------------------------------------------------------------------------------------------
+# per-iteration dataflow: where the value of an expression evaluated inside a loop iteration comes from.
+# "Places" are dotted texts rooted at a local name (`ids`, `self._seen`); two places conflict when one is a
+# component-wise prefix of the other.
+MUTATORS = frozenset({"add", "update", "append", "extend", "insert", "remove", "discard", "pop", "popitem", "clear",
+                      "setdefault", "sort", "reverse", "intersection_update", "difference_update",
+                      "symmetric_difference_update", "appendleft", "extendleft", "__setitem__", "__delitem__"})
+EAGER_CONSUMERS = frozenset({"set", "frozenset", "list", "tuple", "dict", "sorted", "sum", "any", "all", "max", "min", "len",
+                             "next", "str", "repr"})
+
+
+def dotted(e: ast.AST) -> str | None:
+    parts: list[str] = []
+    while isinstance(e, ast.Attribute):
+        parts.append(e.attr)
+        e = e.value
+    if isinstance(e, ast.Name):
+        parts.append(e.id)
+        return ".".join(reversed(parts))
+    return None
+
+
+def places_conflict(a: str, b: str) -> bool:
+    pa, pb = a.split("."), b.split(".")
+    k = min(len(pa), len(pb))
+    return pa[:k] == pb[:k]
+
+
+def _target_names(t: ast.AST) -> set[str]:
+    return {n.id for n in ast.walk(t) if isinstance(n, ast.Name)}
+
+
+def places_read(e: ast.AST | None, bound: frozenset[str] = frozenset(), lazy_only: bool = False) -> set[str]:
+    """Places an expression reads from its enclosing function scope (lambda parameters and comprehension
+    variables are not).  `lazy_only`: only what a lambda / generator expression `e` reads when it is *run*
+    (for a generator expression everything but the first iterable, which is evaluated where it is written)."""
+    out: set[str] = set()
+
+    def go(n: ast.AST | None, b: frozenset[str]) -> None:
+        if n is None:
+            return
+        if isinstance(n, (ast.Name, ast.Attribute)):
+            d = dotted(n)
+            if d is not None:
+                if d.split(".")[0] not in b and not isinstance(getattr(n, "ctx", None), (ast.Store, ast.Del)):
+                    out.add(d)
+                return
+        if isinstance(n, ast.Lambda):
+            for dflt in list(n.args.defaults) + [k for k in n.args.kw_defaults if k is not None]:
+                go(dflt, b)
+            go(n.body, b | frozenset(_params_of(n)))
+            return
+        if isinstance(n, _FuncTypes):
+            inner = frozenset(_params_of(n)) | {x.id for s in n.body for x in ast.walk(s)
+                                                if isinstance(x, ast.Name) and isinstance(x.ctx, ast.Store)}
+            for s in n.body:
+                go(s, b | inner)
+            return
+        if isinstance(n, (ast.ListComp, ast.SetComp, ast.GeneratorExp, ast.DictComp)):
+            bb = b
+            for g in n.generators:
+                go(g.iter, bb)
+                bb = bb | frozenset(_target_names(g.target))
+                for i in g.ifs:
+                    go(i, bb)
+            if isinstance(n, ast.DictComp):
+                go(n.key, bb)
+                go(n.value, bb)
+            else:
+                go(n.elt, bb)
+            return
+        if isinstance(n, ast.NamedExpr):
+            go(n.value, b)
+            return
+        for c in ast.iter_child_nodes(n):
+            go(c, b)
+
+    if lazy_only and isinstance(e, ast.GeneratorExp):
+        g0 = e.generators[0]
+        bb = bound | frozenset(_target_names(g0.target))
+        res: set[str] = set()
+        for i in g0.ifs:
+            res |= places_read(i, bb)
+        for g in e.generators[1:]:
+            res |= places_read(g.iter, bb)
+            bb = bb | frozenset(_target_names(g.target))
+            for i in g.ifs:
+                res |= places_read(i, bb)
+        return res | places_read(e.elt, bb)
+    if lazy_only and isinstance(e, ast.Lambda):
+        return places_read(e.body, bound | frozenset(_params_of(e)))
+    go(e, bound)
+    return out
+
+
+class Effect:
+    """One write performed by a CFG node: `place` gets a new value computed from `deps`; `updates`: the old
+    value of the place is part of the new one (augmented assignment, in-place mutation, item / attribute store)."""
+    __slots__ = ("place", "updates", "deps", "node")
+
+    def __init__(self, place: str, updates: bool, deps: list[ast.AST], node: ast.AST) -> None:
+        self.place, self.updates, self.deps, self.node = place, updates, deps, node
+
+
+def _target_effects(t: ast.AST, value: list[ast.AST], at: ast.AST, out: list[Effect]) -> None:
+    if isinstance(t, (ast.Tuple, ast.List)):
+        for x in t.elts:
+            _target_effects(x, value, at, out)
+    elif isinstance(t, ast.Starred):
+        _target_effects(t.value, value, at, out)
+    elif isinstance(t, ast.Name):
+        out.append(Effect(t.id, False, value, at))
+    elif isinstance(t, ast.Subscript):
+        d = dotted(t.value)
+        if d is not None:
+            out.append(Effect(d, True, value + [t.slice], at))
+    elif isinstance(t, ast.Attribute):
+        d = dotted(t)
+        if d is not None:
+            out.append(Effect(d, False, value, at))
+
+
+def node_effects(cfg: CFG, nid: int) -> list[Effect]:
+    from ..engine.cfg import own_parts
+    n = cfg.nodes[nid]
+    out: list[Effect] = []
+    a = n.ast
+    if a is None or n.kind == "handler":
+        if a is not None and getattr(a, "name", None):
+            out.append(Effect(a.name, False, [], a))  # type: ignore[attr-defined]
+        return out
+    if n.kind == "for":
+        _target_effects(a.target, [a.iter], a, out)  # type: ignore[attr-defined]
+        parts: list[ast.AST] = [a.iter]  # type: ignore[attr-defined]
+    elif n.kind == "with":
+        if getattr(a, "optional_vars", None) is not None:
+            _target_effects(a.optional_vars, [a.context_expr], a, out)  # type: ignore[attr-defined]
+        parts = [a.context_expr]  # type: ignore[attr-defined]
+    else:
+        parts = list(own_parts(n))
+    for part in parts:
+        if isinstance(part, _FuncTypes + (ast.ClassDef,)):
+            out.append(Effect(part.name, False, [part], part))
+            continue
+        for x in walk_no_nested(part):
+            if isinstance(x, ast.Assign):
+                for t in x.targets:
+                    _target_effects(t, [x.value], x, out)
+            elif isinstance(x, ast.AnnAssign) and x.value is not None:
+                _target_effects(x.target, [x.value], x, out)
+            elif isinstance(x, ast.AugAssign):
+                d = dotted(x.target.value) if isinstance(x.target, ast.Subscript) else dotted(x.target)
+                if d is not None:
+                    out.append(Effect(d, True, [x.value] + ([x.target.slice] if isinstance(x.target, ast.Subscript) else []), x))
+            elif isinstance(x, ast.Delete):
+                for t in x.targets:
+                    d = dotted(t.value) if isinstance(t, ast.Subscript) else dotted(t)
+                    if d is not None:
+                        out.append(Effect(d, isinstance(t, ast.Subscript), [], x))
+            elif isinstance(x, ast.NamedExpr):
+                out.append(Effect(x.target.id, False, [x.value], x))
+            elif isinstance(x, ast.Call) and isinstance(x.func, ast.Attribute) and x.func.attr in MUTATORS:
+                d = dotted(x.func.value)
+                if d is not None:
+                    out.append(Effect(d, True, list(x.args) + [k.value for k in x.keywords], x))
+    return out
+
+
+def name_aliases(fn: FuncNode) -> dict[str, set[str]]:
+    """Locals that may name the same object because one was assigned the other (`a = b`), transitively."""
+    parent: dict[str, str] = {}
+
+    def find(x: str) -> str:
+        while parent.setdefault(x, x) != x:
+            parent[x] = parent[parent[x]]
+            x = parent[x]
+        return x
+
+    for s in fn.body:
+        for n in walk_no_nested(s):
+            v = n.value if isinstance(n, (ast.Assign, ast.AnnAssign, ast.NamedExpr)) else None
+            if isinstance(v, ast.Name):
+                ts = n.targets if isinstance(n, ast.Assign) else [n.target]
+                for t in ts:
+                    if isinstance(t, ast.Name):
+                        parent[find(t.id)] = find(v.id)
+    groups: dict[str, set[str]] = {}
+    for x in list(parent):
+        groups.setdefault(find(x), set()).add(x)
+    return {x: g for g in groups.values() for x in g}
+
+
+class IterationSlice:
+    """Backward slice of an expression evaluated at a node of a loop body, cut at the loop header.
+
+      inputs    places whose value, on some path of the iteration, is the one they had when the iteration began
+                (made before the loop or by an earlier iteration) — the loop's own targets are not inputs;
+      reads     every place the value is computed from;
+      exprs     the expressions that were followed (the sink and the right-hand sides of the writers);
+      carried   inputs that the loop body writes (rebinds on some path, updates in place, stores into) — under one
+                of their names: state that is carried from one iteration into the next and into the value."""
+
+    def __init__(self, cfg: CFG, header: int, body: set[int], fresh: Iterable[str], aliases: dict[str, set[str]]) -> None:
+        self.cfg, self.h, self.body = cfg, header, body
+        self.fresh = set(fresh)
+        self.aliases = aliases
+        self.inputs: dict[str, None] = {}
+        self.reads: set[str] = set()
+        self.exprs: list[ast.AST] = []
+        self.writers: list[Effect] = []
+        self._fx: dict[int, list[Effect]] = {}
+        self._seen: set[tuple[str, int]] = set()
+
+    def effects(self, nid: int) -> list[Effect]:
+        if nid not in self._fx:
+            self._fx[nid] = node_effects(self.cfg, nid)
+        return self._fx[nid]
+
+    def follow(self, expr: ast.AST, at: int, bound: frozenset[str] = frozenset()) -> None:
+        self.exprs.append(expr)
+        for p in sorted(places_read(expr, bound)):
+            self.reads.add(p)
+            self._resolve(p, at)
+
+    def nearest(self, place: str, at: int) -> tuple[list[tuple[int, Effect]], bool]:
+        """The writes of `place` that can be the last ones before node `at` starts executing (within this
+        iteration), and whether `at` can be reached from the loop header without a write that replaces it."""
+        hits: list[tuple[int, Effect]] = []
+        from_header = False
+        stack = [p for p, _lab in self.cfg.pred[at]]
+        seen: set[int] = set()
+        while stack:
+            p = stack.pop()
+            if p in seen:
+                continue
+            seen.add(p)
+            if p == self.h:
+                from_header = True
+                continue
+            if p not in self.body:
+                continue
+            killed = False
+            for e in self.effects(p):
+                if places_conflict(e.place, place):
+                    hits.append((p, e))
+                    if not e.updates and len(e.place.split(".")) <= len(place.split(".")):
+                        killed = True
+            if not killed:
+                stack.extend(q for q, _lab in self.cfg.pred[p])
+        return hits, from_header
+
+    def _resolve(self, place: str, at: int) -> None:
+        """Follow the value `place` has when node `at` starts executing."""
+        if (place, at) in self._seen:
+            return
+        self._seen.add((place, at))
+        hits, from_header = self.nearest(place, at)
+        if from_header and place.split(".")[0] not in self.fresh:
+            self.inputs[place] = None
+        for p, e in hits:
+            self.writers.append(e)
+            for d in e.deps:
+                self.follow(d, p)
+
+    def carried(self) -> list[tuple[str, Effect]]:
+        out: list[tuple[str, Effect]] = []
+        for place in self.inputs:
+            root, _, rest = place.partition(".")
+            names = [place] + [a + ("." + rest if rest else "") for a in sorted(self.aliases.get(root, ())) if a != root]
+            for nid in sorted(self.body):
+                for e in self.effects(nid):
+                    # (under another name only a mutation reaches the input's object; rebinding the alias does not)
+                    if places_conflict(e.place, place) or (e.updates and any(places_conflict(e.place, nm) for nm in names[1:])):
+                        out.append((place, e))
+        return out
